@@ -167,11 +167,13 @@ func withJSONPatterns(s *core.Spec) *core.Spec {
 func one(id int, dir string) O {
 	a := genSpec()
 	unknown := ""
+	badType := "msg"
 	switch rng.Intn(12) {
 	case 0:
 		unknown = "interpreter"
 	case 1:
 		unknown = "branching"
+		badType = []string{"msg", "Message", "MESSAGE", "Bindings", "messages", " message"}[rng.Intn(6)]
 	case 2:
 		unknown = "patternSyntax"
 	}
@@ -191,7 +193,7 @@ func one(id int, dir string) O {
 				s.Nodes["n1"].Branches.Type = "bindings"
 			}
 		case "branching":
-			s.Nodes["start"].Branches.Type = "msg"
+			s.Nodes["start"].Branches.Type = badType
 		case "patternSyntax":
 			s.PatternSyntax = "xml"
 		}
@@ -261,6 +263,21 @@ func one(id int, dir string) O {
 			e = trap(func() error { return sp2.Compile(ctx, nil, true) })
 		}
 		add("go-json-patterns-compiled-twice", sp2, nil, e)
+		// patterns parsed first (as tools do), then compiled
+		sp3 := withJSONPatterns(mk())
+		e = trap(func() error { return sp3.ParsePatterns(ctx) })
+		if e == nil {
+			e = trap(func() error { return sp3.Compile(ctx, nil, true) })
+		}
+		add("go-json-patterns-parsed-then-compiled", sp3, nil, e)
+		// a first compilation that fails (no interpreters available), then a retry
+		if unknown == "" {
+			sp4 := withJSONPatterns(mk())
+			first := trap(func() error { return sp4.Compile(ctx, core.InterpretersMap{}, true) })
+			e = trap(func() error { return sp4.Compile(ctx, nil, true) })
+			_ = first
+			add("go-json-patterns-compile-retry", sp4, nil, e)
+		}
 		jsp, _ := json.Marshal(withJSONPatterns(mk()))
 		var sjp core.Spec
 		lerr = json.Unmarshal(jsp, &sjp)
@@ -297,7 +314,7 @@ func one(id int, dir string) O {
 		e = trap(func() error { var err error; _, spec, err = sio.ResolveSpecSource(ctx, &crew.SpecSource{URL: "file://" + yf}); return err })
 		add("sio-file-yaml", spec, nil, e)
 	}
-	return O{"id": id, "kind": "load", "unknown": unknown, "reps": reps, "raw": enc.Canon(O{"spec": a, "unknown": unknown, "seqs": seqs})}
+	return O{"id": id, "kind": "load", "unknown": unknown, "badType": badType, "reps": reps, "raw": enc.Canon(O{"spec": a, "unknown": unknown, "seqs": seqs})}
 }
 
 // documents that are not well-formed specifications: loading and compiling yields a spec or an error (C07)
@@ -308,7 +325,16 @@ func malformed(id int) O {
 		`{"nodes":{"start":{"action":{"interpreter":"ecmascript","source":"this is not javascript ("}}}}`,
 		`{"nodes":{"start":{"action":{"interpreter":"ecmascript","source":42}}}}`, `{"nodes":{"start":{"action":null,"branching":{"type":"bindings","branches":[{"pattern":{"?a":1,"b":2},"target":"start"}]}}}}`,
 		`{"patternSyntax":"json","nodes":{"start":{"branching":{"type":"message","branches":[{"pattern":"{not json","target":"start"}]}}}}`,
-		`{"boot":{"interpreter":"nope","source":"x"},"nodes":{}}`, `{"errorNode":"oops","noErrorNode":true,"nodes":{"start":{}}}`,
+		`{"boot":{"interpreter":"nope","source":"x"},"nodes":{}}`,
+		`{"nodes":{"start":{"branching":{"branches":[{"guard":{"interpreter":"ecmascript"},"target":"start"}]}}}}`,
+		`{"nodes":{"start":{"branching":{"branches":[{"guard":{"interpreter":"ecmascript","source":null},"target":"start"}]}}}}`,
+		`{"nodes":{"start":{"branching":{"branches":[{"guard":{"interpreter":"ecmascript","source":["return","_.bindings;"]},"target":"start"}]}}}}`,
+		`{"nodes":{"start":{"branching":{"branches":[{"guard":{"interpreter":"ecmascript","source":{"code":"x"}},"target":"start"}]}}}}`,
+		`{"nodes":{"start":{"branching":{"branches":[{"guard":{"interpreter":"nope","source":{"code":"x"}},"target":"start"}]}}}}`,
+		`{"nodes":{"start":{"branching":{"branches":[{"guard":{"interpreter":"ecmascript","source":"syntax error ("},"target":"start"}]}}}}`,
+		`{"nodes":{"start":{"action":{"interpreter":"nope","source":{"code":"x"}}}}}`,
+		`{"nodes":{"start":{"action":{"interpreter":"ecmascript","source":["a","b"]}}}}`,
+		`{"toob":{"interpreter":"ecmascript","source":null},"nodes":{}}`, `{"errorNode":"oops","noErrorNode":true,"nodes":{"start":{}}}`,
 	}
 	doc := docs[rng.Intn(len(docs))]
 	res := T{}
